@@ -90,6 +90,21 @@ func init() {
 		s2, v2 := hashFields(a[4], a[5], a[6], a[7])
 		return []string{s1, v1, s2, v2}, nil
 	})
+	// hashflags ty w1 w2 ... : every word hashed under the four (circular, doubleStranded) pairs
+	// (true,true) (true,false) (false,true) (false,false); one field per call, "err" for a rejected call
+	runner.Register("hashflags", func(a []string) ([]string, error) {
+		var out []string
+		for _, w := range a[1:] {
+			for _, f := range [][2]bool{{true, true}, {true, false}, {false, true}, {false, false}} {
+				h, err := seqhash.Hash(w, a[0], f[0], f[1])
+				if err != nil {
+					h = "err"
+				}
+				out = append(out, h)
+			}
+		}
+		return out, nil
+	})
 	// every word of length n over alpha, odometer order (last letter fastest)
 	runner.Register("hashall", func(a []string) ([]string, error) {
 		alpha := a[0]
